@@ -16,7 +16,9 @@ pub fn check_image(k: Kind, img: &[u8], accepted: &[Op], step: usize, out: &mut 
     for i in &w.issues {
         out.push(Violation::new("C03", &i.subject, i.kind, i.detail.clone(), format!("step={} {}", step, i.info)));
     }
-    if !w.issues.is_empty() {
+    // a length field that disagrees with the entry's size does not stop the walk (it re-syncs on
+    // the specification's size), so the remaining checks still run: one finding must not hide another
+    if w.issues.iter().any(|i| i.kind != "entry-length-mismatch") {
         return;
     }
     if k == Kind::Slit {
@@ -60,33 +62,77 @@ pub fn check_image(k: Kind, img: &[u8], accepted: &[Op], step: usize, out: &mut 
     }
 }
 
+/// The entry an op adds is a public object of its own: serialised alone it must be refused or be
+/// one self-describing entry (own length field == its bytes, nested counts consistent with them).
+/// The walker is run on a fabricated one-entry table.
+pub fn standalone(kind: Kind, op: &Op, out: &mut Vec<Violation>) {
+    use std::panic::{catch_unwind, AssertUnwindSafe};
+    let mut got: Option<Vec<u8>> = None;
+    let r = catch_unwind(AssertUnwindSafe(|| match op {
+        // also with a target list that does not match the interleave ways (must be refused)
+        Op::Cfmws { base, size, arith, gran, ways, qtg, restr, targets } => got = Some(ser(&mk_cfmws(*base, *size, *arith, *gran, *ways, *qtg, restr, targets))),
+        _ => with_entry(op, &mut |_, a, _| got = Some(ser(a))),
+    }));
+    let (Ok(()), Some(b)) = (r, got) else { return };
+    let first = crate::tables::refenc::first_entry_offset(kind);
+    let mut img = vec![0u8; first];
+    let put = |img: &mut Vec<u8>, o: usize, w: usize, v: u64| img[o..o + w].copy_from_slice(&v.to_le_bytes()[..w]);
+    match kind {
+        Kind::Rhct => {
+            put(&mut img, 48, 4, 1);
+            put(&mut img, 52, 4, 56);
+        }
+        Kind::Rimt => {
+            put(&mut img, 36, 4, 1);
+            put(&mut img, 40, 4, 48);
+        }
+        Kind::Viot => {
+            put(&mut img, 36, 2, 1);
+            put(&mut img, 38, 2, 48);
+        }
+        Kind::Madt | Kind::Srat | Kind::Hmat | Kind::Pptt | Kind::Cedt => {}
+        _ => return,
+    }
+    img.extend_from_slice(&b);
+    let w = walk(kind, &img);
+    for i in &w.issues {
+        out.push(Violation::new("C03", &i.subject, i.kind, i.detail.clone(), format!("stand-alone entry {}: {}", op.label(), i.info)));
+    }
+    if w.issues.is_empty() && (w.entries.len() != 1 || w.entries[0].len != b.len()) {
+        out.push(Violation::new("C03", &format!("{}/{}", kind.name(), op.label()), "entry-length-mismatch", "stand-alone entry".into(), format!("entries={} bytes={}", w.entries.len(), b.len())));
+    }
+}
+
 pub fn oracle(p: &Program) -> Vec<Violation> {
     let flat = flatten(p);
-    let mask = refusal_mask(p, &flat);
+    let mut tr = Tracker::new(p, &flat);
     let mut out: Vec<Violation> = Vec::new();
     let total = flat.len();
-    let mut accepted: Vec<Op> = Vec::new();
-    let mut next = 0usize;
     drive(p, &flat, &mut |o: &Obs| {
-        while next < o.step {
-            if !mask[next] {
-                accepted.push(flat[next].clone());
-            }
-            next += 1;
-        }
-        if o.step > 0 && o.refused != mask[o.step - 1] && out.is_empty() {
-            let kind = if o.refused { "refused-valid" } else { "accepted-invalid" };
-            out.push(Violation::new("C03", &format!("{}/{}", p.kind.name(), flat[o.step - 1].label()), kind, String::new(), format!("step={}", o.step)));
-        }
-        if !out.is_empty() {
+        let mismatch = tr.observe(&flat, o.step, o.refused);
+        if tr.undefined {
             return;
         }
+        if let (Some(kind), true) = (mismatch, !out.iter().any(|v| v.kind == "refused-valid" || v.kind == "accepted-invalid")) {
+            out.push(Violation::new("C03", &format!("{}/{}", p.kind.name(), flat[o.step - 1].label()), kind, String::new(), format!("step={}", o.step)));
+        }
+        if out.iter().any(|v| v.kind != "entry-length-mismatch") {
+            return;
+        }
+        let accepted = &tr.accepted;
         if !(total <= 64 || o.step == total || o.step % 53 == 0 || o.step <= 3) {
             return;
         }
-        check_image(p.kind, o.image, &accepted, o.step, &mut out);
+        check_image(p.kind, o.image, accepted, o.step, &mut out);
+        let mut seen = std::collections::HashSet::new();
+        out.retain(|v| seen.insert(v.sig()));
     });
-    out.truncate(4);
+    for op in flat.iter().take(24) {
+        standalone(p.kind, op, &mut out);
+    }
+    let mut seen = std::collections::HashSet::new();
+    out.retain(|v| seen.insert(v.sig()));
+    out.truncate(6);
     out
 }
 
